@@ -318,7 +318,11 @@ impl<'a, 'tcx> T<'a, 'tcx> {
                 match &lit.node {
                     LitKind::Str(s, _) => o.push(("s", J::s(s.to_string()))),
                     LitKind::ByteStr(b, _) | LitKind::CStr(b, _) => {
-                        o.push(("bytes", J::s(String::from_utf8_lossy(b.as_byte_str()).to_string())))
+                        o.push(("bytes", J::s(String::from_utf8_lossy(b.as_byte_str()).to_string())));
+                        o.push((
+                            "hex",
+                            J::s(b.as_byte_str().iter().map(|x| format!("{:02x}", x)).collect::<String>()),
+                        ))
                     }
                     LitKind::Byte(b) => o.push(("i", J::Int(*b as i128))),
                     LitKind::Char(c) => o.push(("c", J::s(c.to_string()))),
